@@ -31,6 +31,10 @@ def _content(st, v):
 
 def np_abs(ex, st, args, kw, node):
     v = args[0]
+    from .symval import Arr2C
+    if isinstance(v, Ref) and isinstance(st.content(v), Arr2C):
+        from .symex import _abs
+        return _abs(ex, st, args, kw, node)
     if isinstance(v, (tuple, list)):
         return tuple(np_abs(ex, st, [x], kw, node) for x in v)
     c = _content(st, v)
